@@ -429,7 +429,7 @@ def run_unit(args):
                 o["more_failures"] = o.get("more_failures", 0) + 1
         res["covers"] = {k: v for k, v in unit.covers.items()}
         res["inlined"] = sorted(I.inlined)
-    except Unsupported as e:
+    except (Unsupported, IterationCap) as e:
         res["ungenerable"] = str(e)
         res["trace"] = traceback.format_exc()[-3000:]
     except Exception as e:
